@@ -35,6 +35,7 @@ var (
 
 // Prog is the loaded, type-checked program in SSA form.
 type Prog struct {
+	Converted map[*ssa.Function]string // functions answering to an anchor name after a method<->function conversion
 	Variant Variant
 	Fset    *token.FileSet
 	Pkg     *packages.Package
@@ -144,9 +145,15 @@ func Load(repo string, v Variant) (*Prog, error) {
 }
 
 // FuncName gives "(*T).m", "f", "f$1" without the package path.
+// convertedNames: see Prog.AliasConverted (one program per process).
+var convertedNames = map[*ssa.Function]string{}
+
 func FuncName(f *ssa.Function) string {
 	if f == nil {
 		return "<nil>"
+	}
+	if n, ok := convertedNames[f]; ok {
+		return n // the anchor name the rules know this function by
 	}
 	if f.Pkg == nil && (f.Parent() == nil || f.Parent().Pkg == nil) {
 		return f.String() // synthetic wrapper (bound method, thunk) of another package
